@@ -103,14 +103,14 @@ pub fn write(
                 let mut ip_memory_d = MDMemoryDescriptor {
                     start_of_memory_range: std::cmp::max(
                         mapping.start_address,
-                        instruction_ptr - ip_memory_size / 2,
+                        instruction_ptr.saturating_sub(ip_memory_size / 2),
                     ) as u64,
                     ..Default::default()
                 };
 
                 let end_of_range = std::cmp::min(
                     mapping.start_address + mapping.size,
-                    instruction_ptr + ip_memory_size / 2,
+                    instruction_ptr.saturating_add(ip_memory_size / 2),
                 ) as u64;
                 ip_memory_d.memory.data_size =
                     (end_of_range - ip_memory_d.start_of_memory_range) as u32;
